@@ -109,7 +109,7 @@ func (ctx *checkCtx) run(jobs []Job) int {
 					o.verdict = "ok"
 					// replay one cover witness per (harness,label) for translator validation
 					k := o.job.Harness + "/" + o.Label
-					if o.model != nil && !coverSeen[k] {
+					if o.model != nil && !coverSeen[k] && !o.job.Abstract {
 						coverSeen[k] = true
 						toReplay = append(toReplay, repItem{o, ctx.replayCase(o)})
 					}
